@@ -206,6 +206,48 @@ def main(tier):
             ck.ok("R-C01-3", NORM[n])
         else:
             ck.violation("R-C01-3", "solve:norm-%s" % NORM[n], ir.locstr(solve_fn), "no stop test used the %s norm expression in its mode" % NORM[n])
+    # ---- R-C01-4: the combination extrapolatedResidual builds (exact table, interpreted from source)
+    from fractions import Fraction
+    from gmg import dag, symdom, tab_ops
+    from gmg.dag import Lin
+    from gmg.interp import Cell
+    from gmg.symdom import SArr
+    ck.rule("R-C01-4", "extrapolatedResidual: 4/3 r_h at fine-only nodes, (4 r_h - r_2h)/3 at coarse nodes (r_2h at the injected index)", floor=3)
+    oprog = tab_ops.load()
+    fx = oprog.fn("GMGPolar::extrapolatedResidual")
+    ck.analysed(fx)
+    for (nr, nt, nsc, nscc) in ((7, 8, 3, 2), (9, 4, 2, 1), (5, 8, 5, 3), (7, 8, 0, 0)):
+        S = tab_ops.Setting(oprog, nr, nt, nsc, False)
+        cg = symdom.coarse_of(S.grid, nscc)
+        gm = tab_ops.make_gmgpolar(S, [symdom.make_level(0, S.grid), symdom.make_level(1, cg)])
+        Nc = cg.shape[0] * cg.shape[1]
+        res = SArr("residual", S.N, gen=lambda j: Lin.var(("r", j)))
+        rn = SArr("residual_next", Nc, gen=lambda j: Lin.var(("c", j)))
+        S.it.call_function(fx, gm, [0, Cell(res), Cell(rn)])
+        key = "nr=%d ntheta=%d nsc=%d/%d" % (nr, nt, nsc, nscc)
+        ck.instance("R-C01-4", key)
+        bad = None
+        cnt, cnr = nt // 2, (nr + 1) // 2
+
+        def cindex(i, j):
+            return j + cnt * i if i < nscc else nscc * cnt + (i - nscc) + (cnr - nscc) * j
+
+        for p in range(S.N):
+            i, j = S.rt(p)
+            v = res.sym.get(p)
+            want = {("r", p): Fraction(4, 3)}
+            if i % 2 == 0 and j % 2 == 0:
+                want[("c", cindex(i // 2, j // 2))] = Fraction(-1, 3)
+            got = {k: c for k, c in v.t.items() if not dag.is_zero(c)} if isinstance(v, Lin) else None
+            if got is None or set(got) != set(want) or any(not dag.equal(got[k], dag.const(want[k])) for k in want):
+                bad = "node (%d,%d): extrapolated residual is %s, expected %s" % (i, j, v, want)
+                break
+        if S.dom.oob:
+            bad = "out-of-range access %r" % (S.dom.oob[0],)
+        if bad:
+            ck.violation("R-C01-4", "extrapolatedResidual:table", ir.locstr(fx), "%s: %s" % (key, bad))
+        else:
+            ck.ok("R-C01-4", key, sample={"shape": key, "coarse-node row": "4/3 r_h - 1/3 r_2h", "fine-node row": "4/3 r_h"})
     ck.extra["modes"] = len(ms)
     ck.extra["paths"] = n_paths
     return ck.finish(
@@ -216,7 +258,7 @@ def main(tier):
         "recorded branch conditions. Decides 'a reported stop is true' structurally; convergence and the rate bound are numerical "
         "and not decided.",
         trusted_base=["clang 14 front end", "gmgir lowering", "operator signature table"],
-        assumptions=["extrapolatedResidual implements the documented 4/3,-1/3 combination (checked structurally under R-C01-4 when the TAB engine covers it)"])
+        assumptions=["convergence and its rate are numerical and not decided"])
 
 
 if __name__ == "__main__":
